@@ -276,12 +276,18 @@ func (p *planner) planDrop(i int, ppl *logql_parser.StrSelectorPipeline) error {
 	if err != nil {
 		return err
 	}
+	main := p.samplesPlanner
+	if p.labelsJoinIdx != -1 && p.labelsJoinIdx < i {
+		// the drop redefines the `labels` column; label filters already attached to this SELECT must keep
+		// reading the labels as they were before the drop, so the drop gets a SELECT of its own
+		main = &MainRenewPlanner{main, true}
+	}
 	p.samplesPlanner = &PlannerDrop{
 		Labels:      labels,
 		Vals:        values,
 		LabelsCache: &p.labelsCache,
 		fpCache:     &p.fpCache,
-		Main:        p.samplesPlanner,
+		Main:        main,
 	}
 	return nil
 }
